@@ -172,3 +172,13 @@ Theorem batch_characterisation :
                      snd t = summary_msg (fst (fst t))) b.
 Proof. exact batch_characterisation_proof. Qed.
 Print Assumptions batch_characterisation.
+
+(* what is accepted of a port: the messages of the published records, each still its own, and no other message *)
+Theorem port_characterisation :
+  forall (b : list (record * list (list Z) * list (list Z))) (stray : list (list (list Z))),
+    C14_check_port b stray = true <->
+    stray = [] /\
+    Forall (fun t => fits (fst (fst t)) /\ snd (fst t) = record_msg (fst (fst t)) /\
+                     snd t = summary_msg (fst (fst t))) b.
+Proof. exact port_characterisation_proof. Qed.
+Print Assumptions port_characterisation.
